@@ -1344,13 +1344,16 @@ var gridUnits = []unitDef{
 // multiples (or neighbours) written in the filter unit. Unit pairs: same, filter finer, filter
 // coarser, unknown / none, cross-family.
 func genUnitGrid(r *Rng) (*profile.Profile, string, string) {
-	lu := gridUnits[r.Intn(len(gridUnits))]
+	lu := gridUnits[r.Intn(7)]
+	if r.Chance(15) {
+		lu = gridUnits[7+r.Intn(2)] // label without unit / with an unknown unit
+	}
 	var fu unitDef
 	pair := ""
-	switch r.Intn(6) {
+	switch r.Intn(8) {
 	case 0:
 		fu, pair = lu, "same"
-	case 1, 2: // same family, different unit (coarser twice as often: that is where fractions arise)
+	case 1, 2, 3: // same family, different unit (coarser twice as often: that is where fractions arise)
 		var cands []unitDef
 		for _, u := range gridUnits {
 			if u.family == lu.family && u.label != lu.label && lu.family != 2 {
@@ -1369,7 +1372,7 @@ func genUnitGrid(r *Rng) (*profile.Profile, string, string) {
 				pair = "filter-coarser"
 			}
 		}
-	case 3:
+	case 4:
 		fu, pair = gridUnits[7+r.Intn(2)], "filter-unit-none-or-unknown"
 	default:
 		fu = gridUnits[r.Intn(7)]
